@@ -186,7 +186,7 @@ class SchedMode(vlib.Mode):
 
 def modes(tier):
     # the register histories of C10 run here too: "refused until the expiry given in the deny request" is the register's business
-    return [SchedMode(), RelayMode("C07"), c10.DenyMode(), RelayMainMode("C07", 3), StubbornMode("C07")]
+    return [SchedMode(), RelayMode("C07"), c10.DenyMode(), RelayMainMode("C07", 3), StubbornMode("C07"), HubForC07("C13")]
 
 from lagcommon import StubbornMode, STUBBORN_RULE
 RULE = RULE + STUBBORN_RULE
@@ -196,3 +196,17 @@ from tiecommon import TIE_HUB, TIE_HUB_NOTE, TIE_HUB_ASSUMPTION
 THEOREMS = THEOREMS + TIE_HUB
 RULE = TIE_HUB_NOTE + RULE
 ASSUMPTIONS = ASSUMPTIONS + [TIE_HUB_ASSUMPTION]
+
+
+# a deny closes the connections the hub has RECORDED under the booking: the hub histories of C03/C05/C13, judged here on the cancel bookkeeping
+# alone (after every event the cancel-channel store holds exactly the joined clients that have a booking id)
+from hubcommon import HubMode
+
+
+class HubForC07(HubMode):
+    def generate(self, rng, tier):
+        cases = HubMode.generate(self, rng, tier)
+        return cases[:len(cases) // 3]
+
+    def oracle(self, case, out):
+        return [x for x in HubMode.oracle(self, case, out) if x[0] in ("cancel-bookkeeping-wrong", "hub-crash", "hub-stuck")]
